@@ -268,3 +268,12 @@ REG.add(Contract("get_evaluable_architecture", module=M_PT, view="string",
                  ensures=_entry_post("root_path", "module_path"),
                  note=_GRAMMAR_NOTE + "; the default of `exclusions` (DEFAULT_EXCLUSIONS, a module-level tuple) is not modelled: callers pass it explicitly",
                  properties=["C04", "C08", "C09", "C10", "C13"]))
+# C04: the module-object entry point builds the architecture of the path entry point on the modules' directories: it raises in exactly the same cases and its
+# constructor log satisfies literally the path entry point's postcondition with root_path := dirname(root_module.__file__), module_path := dirname(module.__file__)
+# and every option in its own position (a swapped or dropped option changes the raises-condition or the effective pattern sets)
+_RD, _MD = "os_dirname(module_file(root_module))", "os_dirname(module_file(module))"
+REG.add(Contract("get_evaluable_architecture_for_module_objects", module=M_PT, view="string",
+                 params=dict(root_module="Opaque[ModuleType]", module="Opaque[ModuleType]", **_OPTS, ghost_ctor="CtorLog"), defaults=_OPT_DEFAULTS,
+                 returns=EG, modifies=["ghost_ctor"], requires=[_GRAMMAR],
+                 raises=_entry_raises(_RD, _MD), ensures_on_raise=["ghost_ctor.calls == old(ghost_ctor).calls"],
+                 ensures=_entry_post(_RD, _MD), note=_GRAMMAR_NOTE, properties=["C04", "C13"]))
